@@ -224,17 +224,22 @@ def run(C, R):
                        'advance / end' % ('>= ' if k == 2 else '', k), '%s:%s' % (fn['file'], fn['line']))
         R.floor('C19.R1 raw-access-instances[%s]' % cfg, nraw, 5)
         # ---- next_idx
-        fn = fn_of(ARRAY, 'next_idx')
-        for path in E.run(fn['path']):
-            R.add_paths(fn['path'], 1)
-            i = ('param', 'last_idx')
-            inc = ('bin', 'Add', i, ('const', 1))
-            eq = const_of(E, path.facts, ('bin', 'Eq', inc, LEN))
-            if (eq == 1 and path.ret == ('const', 0)) or (eq == 0 and path.ret == inc):
-                R.ok('C19.R2', '%s|%s' % (fn['path'], path_cond(E, path)))
-            else:
-                R.fail('C19.R2', [fn['path'], 'wrap'], 'next_idx must return 0 when i+1 == LEN and i+1 otherwise '
-                       '(returns %s under eq=%s)' % (fmt_val(path.ret), eq), '%s:%s' % (fn['file'], fn['line']))
+        nxt = [f for f in F.raw['fns'] if f.get('impl_adt') == ARRAY and f.get('name') == 'next_idx']
+        if not nxt:
+            # the successor is computed inline or in a private helper: push / pop / drop above were judged with it
+            # inlined (next_of accepts i+1 under i+1 != LEN, 0 under i+1 == LEN - whatever code produced it)
+            R.observe('C19.R2: no ArrayBuf::next_idx method [%s]; the index successor was judged inside push / pop / drop' % cfg)
+        for fn in nxt:
+          for path in E.run(fn['path']):
+              R.add_paths(fn['path'], 1)
+              i = ('param', 'last_idx')
+              inc = ('bin', 'Add', i, ('const', 1))
+              eq = const_of(E, path.facts, ('bin', 'Eq', inc, LEN))
+              if (eq == 1 and path.ret == ('const', 0)) or (eq == 0 and path.ret == inc):
+                  R.ok('C19.R2', '%s|%s' % (fn['path'], path_cond(E, path)))
+              else:
+                  R.fail('C19.R2', [fn['path'], 'wrap'], 'next_idx must return 0 when i+1 == LEN and i+1 otherwise '
+                         '(returns %s under eq=%s)' % (fmt_val(path.ret), eq), '%s:%s' % (fn['file'], fn['line']))
         # ---- R3 who may write
         for f in ('send_idx', 'recv_idx', 'size'):
             for wfn, s in scan_field_writes(F, f, 'buffer::ring_buffer'):
